@@ -857,15 +857,16 @@ func (c *Ctx) scannerErr(rule string, funcs []*FuncInfo, clause string) (n, nvio
 
 // ---------------------------------------------------------------------------------------------
 // Comparators. lessVerdict classifies the `less` function literal given to sort.Slice & co:
-//   "total"   one comparison `K(x[i]) < K(x[j])` (or >, or strings.Compare(..) <op> 0) where the two
-//             sides are the same expression in i and j and K only indexes, selects fields and calls
-//             trivial getters of the repository: distinct keys are strictly ordered;
-//   "lossy"   the sides are compared through another function (strings.ToLower, strconv.Atoi, len, a
-//             slice of the string ...): elements that differ only by what the function discards tie,
-//             and a tie leaves them in whatever order the slice had; or the key is chosen by a
-//             condition that is not "the previous keys are equal" (two-clause mixed comparator), which
-//             is not transitive in general;
-//   "unknown" anything else (never reported).
+//
+//	"total"   one comparison `K(x[i]) < K(x[j])` (or >, or strings.Compare(..) <op> 0) where the two
+//	          sides are the same expression in i and j and K only indexes, selects fields and calls
+//	          trivial getters of the repository: distinct keys are strictly ordered;
+//	"lossy"   the sides are compared through another function (strings.ToLower, strconv.Atoi, len, a
+//	          slice of the string ...): elements that differ only by what the function discards tie,
+//	          and a tie leaves them in whatever order the slice had; or the key is chosen by a
+//	          condition that is not "the previous keys are equal" (two-clause mixed comparator), which
+//	          is not transitive in general;
+//	"unknown" anything else (never reported).
 func (c *Ctx) lessVerdict(info *types.Info, lit *ast.FuncLit) (verdict, why string) {
 	if lit.Type.Params == nil {
 		return "unknown", ""
@@ -2439,5 +2440,99 @@ func (c *Ctx) shadowResult(rule string, pkgs []*packages.Package, clause string)
 		}
 	}
 	c.Trivial(rule, "scan", token.NoPos, fmt.Sprintf("%d functions with a named error result examined", n))
+	return
+}
+
+// ---------------------------------------------------------------------------------------------
+// BUF-FLUSH: what is written through a bufio.Writer reaches the file only at Flush. For every
+// `w := bufio.NewWriter(f)`: Flush is called, and it is not merely deferred while f is closed by an
+// ordinary (non-deferred) call in the same function - the deferred Flush would then run after the
+// close and the buffered tail (or the whole output, if it is smaller than the buffer) is lost.
+func (c *Ctx) bufFlush(rule string, pkgs []*packages.Package, clause string) (n, nviol int) {
+	for _, p := range pkgs {
+		for _, file := range p.Syntax {
+			info := p.TypesInfo
+			walkStack(file, func(m ast.Node, stack []ast.Node) bool {
+				as, ok := m.(*ast.AssignStmt)
+				if !ok || len(as.Lhs) != 1 || len(as.Rhs) != 1 {
+					return true
+				}
+				call, ok := unparen(as.Rhs[0]).(*ast.CallExpr)
+				if !ok || len(call.Args) < 1 {
+					return true
+				}
+				g := calleeOf(info, call)
+				if g == nil || g.Pkg() == nil || g.Pkg().Path() != "bufio" || !strings.HasPrefix(g.Name(), "NewWriter") {
+					return true
+				}
+				w := identObj(info, as.Lhs[0])
+				under := identObj(info, call.Args[0])
+				if w == nil {
+					return true
+				}
+				n++
+				body := enclosingBody(append(append([]ast.Node{}, stack...), m))
+				if body == nil {
+					return true
+				}
+				key := c.enclosingFuncName(info, stack) + "/" + w.Name() + ".Flush"
+				flushPlain, flushDeferred := false, false
+				closePlain := token.NoPos
+				walkStack(body, func(q ast.Node, st []ast.Node) bool {
+					cl, ok := q.(*ast.CallExpr)
+					if !ok {
+						return true
+					}
+					deferred := false
+					if len(st) > 0 {
+						if _, isDefer := st[len(st)-1].(*ast.DeferStmt); isDefer {
+							deferred = true
+						}
+					}
+					h := calleeOf(info, cl)
+					if h == nil {
+						return true
+					}
+					if sel, ok := unparen(cl.Fun).(*ast.SelectorExpr); ok && identObj(info, sel.X) == w && h.Name() == "Flush" {
+						if deferred {
+							flushDeferred = true
+						} else {
+							flushPlain = true
+						}
+						return true
+					}
+					if under == nil || deferred {
+						return true
+					}
+					closes := false
+					if sel, ok := unparen(cl.Fun).(*ast.SelectorExpr); ok && identObj(info, sel.X) == under && h.Name() == "Close" {
+						closes = true
+					}
+					if strings.Contains(strings.ToLower(h.Name()), "close") {
+						for _, a := range cl.Args {
+							if identObj(info, a) == under {
+								closes = true
+							}
+						}
+					}
+					if closes && !closePlain.IsValid() {
+						closePlain = cl.Pos()
+					}
+					return true
+				})
+				switch {
+				case !flushPlain && !flushDeferred:
+					nviol++
+					c.Violation(rule, key, as.Pos(), "output is written through the buffered writer "+w.Name()+" and Flush is never called: the buffered tail never reaches the file").Clause = clause
+				case flushDeferred && !flushPlain && closePlain.IsValid():
+					nviol++
+					c.Violation(rule, key, closePlain, "Flush of the buffered writer "+w.Name()+" is only deferred while "+under.Name()+" is closed by an ordinary call before the function returns: the flush runs after the close, and the buffered output (all of it when it is smaller than the buffer) is lost").Clause = clause
+				default:
+					c.OK(rule, key, as.Pos(), "the buffered writer is flushed before its file is closed")
+				}
+				return true
+			})
+		}
+	}
 	return
 }
